@@ -217,3 +217,155 @@ def _remember_get_trials(eng, st, env):
 
 
 _gt = R.contracts[("optuna/study/study.py", "Study.get_trials")]
+
+
+# --- successive halving: promotion test ---------------------------------------------------------------
+SHA = P + "_successive_halving.py"
+
+
+@R.specfunc()
+def strictly_better_than_all_others(eng, st, value, lst, direction):
+    """`value` occurs in the list and is strictly better (direction-wise) than every OTHER occurrence... precisely: no
+    element of the list is better than or equal to value except (one occurrence of) value itself is allowed to be equal."""
+    n = eng.list_len(st, lst)
+    i = z3.Int("sbo_i")
+    e = eng.list_get(st, lst, i).term
+    maxi = direction.term == 2
+    worse_or_eq = z3.If(maxi, z3.Not(f_lt(value.term, e)), z3.Not(f_lt(e, value.term)))      # e is not better than value
+    return SV(KBool, qforall([i], z3.Implies(z3.And(0 <= i, i < n), worse_or_eq), patterns=[e]))
+
+
+@R.specfunc()
+def in_list(eng, st, value, lst):
+    n = eng.list_len(st, lst)
+    i = z3.Int("il_i")
+    return SV(KBool, z3.Exists([i], z3.And(0 <= i, i < n, eng.list_get(st, lst, i).term == value.term)))
+
+
+R.spec(SHA, "_is_trial_promotable_to_next_rung", props=["C16", "C13"],
+       types={"competing_values": "list[float]"}, returns_kind="bool",
+       requires=["reduction_factor >= 2", "len(competing_values) >= 1", "not math_isnan(value)", "in_list(value, old(competing_values))",
+                 "forall(lambda i: implies(0 <= i and i < len(competing_values), not math_isnan(competing_values[i])), trigger=competing_values[i])"],
+       cases=[case("ok", ensures=[
+           # a value that no competing value beats is always promotable (never pruned by the rung test)
+           "implies(strictly_better_than_all_others(value, old_list(competing_values), study_direction), result)",
+       ])],
+       modifies=["L:e:list<float>"])
+
+
+@R.specfunc()
+def old_list(eng, st, lst):
+    """The list with its contents at entry (list.sort() reorders it in place)."""
+    ctx = eng.spec_stack[-1]
+    n_, e_ = eng.lnames(lst.kind)
+    ghost = SV(KList(KFloat, "oldview"), lst.term)
+    gn, ge = eng.lnames(ghost.kind)
+    st.heap[gn] = eng.harr(st, n_) if gn not in st.heap else st.heap[gn]
+    st.heap[gn] = ctx.pre_heap.get(n_, st.heap0.get(n_))
+    st.heap[ge] = ctx.pre_heap.get(e_, st.heap0.get(e_))
+    return ghost
+
+
+# --- hyperband: the bracket is a function of (study name, trial number) and the fixed budgets -------------------
+HB = P + "_hyperband.py"
+
+
+def _prefix(lst_term, k):
+    return uf("budget_prefix", I, I, I)(lst_term, k)
+
+
+@R.specfunc()
+def prefix_axioms(eng, st, self_sv):
+    b = eng.get_field(st, self_sv, "_trial_allocation_budgets")
+    k = z3.Int("pa_k")
+    e = eng.list_get(st, b, k).term
+    n = eng.list_len(st, b)
+    return SV(KBool, z3.And(_prefix(b.term, 0) == 0,
+                            qforall([k], z3.Implies(z3.And(0 <= k, k < n), z3.And(e >= 1, _prefix(b.term, k + 1) == _prefix(b.term, k) + e)), patterns=[e])))
+
+
+@R.specfunc()
+def budget_prefix(eng, st, self_sv, k):
+    b = eng.get_field(st, self_sv, "_trial_allocation_budgets")
+    return SV(KInt, _prefix(b.term, k.term))
+
+
+@R.specfunc()
+def bracket_hash(eng, st, self_sv, study, trial):
+    """crc32("<study_name>_<number>") mod total budget: a function of the study NAME and the trial NUMBER only."""
+    from pyvc import lib
+    V = val_sort()
+    name = eng.get_field(st, study, "study_name").term
+    num = eng.get_field(st, trial, "_number").term
+    fmt = uf("str_format_2", z3.StringSort(), V, V, z3.StringSort())(z3.StringVal("{}_{}"), V.vstr(name), V.vint(num))
+    total = eng.get_field(st, self_sv, "_total_trial_allocation_budget").term
+    h = uf("crc32", z3.StringSort(), I)(fmt)
+    return SV(KInt, h - (h / total) * total)
+
+
+R.spec(HB, "HyperbandPruner._get_bracket_id", props=["C16"], types={"study": "Study", "trial": "FrozenTrial"},
+       returns_kind="int",
+       requires=["prefix_axioms(self)", "self._n_brackets is not None and self._n_brackets == len(self._trial_allocation_budgets)",
+                 "len(self._pruners) == 0 or len(self._pruners) == self._n_brackets",
+                 "self._total_trial_allocation_budget == budget_prefix(self, len(self._trial_allocation_budgets))",
+                 "implies(len(self._pruners) > 0, self._total_trial_allocation_budget >= 1)"],
+       cases=[case("uninitialised", when="len(self._pruners) == 0", returns="0"),
+              case("ok", ensures=[
+                  "0 <= result and result < self._n_brackets",
+                  "budget_prefix(self, result) <= bracket_hash(self, study, trial)",
+                  "bracket_hash(self, study, trial) < budget_prefix(self, result + 1)"])],
+       loops={0: loop(index="_i", invariant=["0 <= _i", "_i <= self._n_brackets", "n == bracket_hash(self, study, trial) - budget_prefix(self, _i)",
+                                             "n >= 0"], locals={"n": "int"})},
+       modifies=[])
+
+
+# --- patient pruner -------------------------------------------------------------------------------------------
+PAT = P + "_patient.py"
+R.spec(P + "_base.py", "BasePruner.prune", trusted=True, types={"study": "Study", "trial": "FrozenTrial"}, returns_kind="bool",
+       cases=[case("ok", ensures=["result == wrapped_decision(self, study, trial)"])], modifies=[],
+       note="the wrapped pruner is an arbitrary BasePruner: its decision is an uninterpreted function of (pruner, study, trial)")
+
+
+@R.specfunc()
+def wrapped_decision(eng, st, pruner, study, trial):
+    return SV(KBool, uf("wrapped_decision", I, I, I, z3.BoolSort())(pruner.term, study.term, trial.term))
+
+
+def _rank(eng, st, d, k):
+    from pyvc import lib
+    ks = eng.dict_keyseq(st, d)
+    _, e_ = eng.lnames(ks.kind)
+    row = z3.simplify(eng.harr(st, e_)[ks.term])
+    return lib.count_less(row, eng.list_len(st, ks), k)
+
+
+@R.specfunc()
+def patience_exceeded(eng, st, trial, patience, min_delta, direction):
+    """Position-free statement of the patience test.  rank(k) = number of reported steps below k; the `patience + 1`
+    latest steps are those of rank >= n - patience - 1.  MINIMIZE: some non-NaN value reported before the window, plus
+    min_delta, is still below every non-NaN value inside the window (and the window has one); MAXIMIZE mirrored."""
+    d = _iv(eng, st, trial)
+    n = eng.dict_size(st, d)
+    cut = n - patience.term - 1
+    a, b = z3.Int("pe_a"), z3.Int("pe_b")
+    va = eng.dict_get(st, d, SV(KInt, a)).term
+    vb = eng.dict_get(st, d, SV(KInt, b)).term
+    has_a, has_b = eng.dict_has(st, d, SV(KInt, a)), eng.dict_has(st, d, SV(KInt, b))
+    in_win = z3.And(has_a, _rank(eng, st, d, a) >= cut, z3.Not(f_is_nan(va)))
+    mini = direction.term == 1
+    md = min_delta.term
+    beats = z3.If(mini, f_lt(f_arith("add", vb, md), va), f_lt(va, f_arith("sub", vb, md)))
+    return SV(KBool, z3.And(
+        z3.Exists([a], in_win),
+        z3.Exists([b], z3.And(has_b, _rank(eng, st, d, b) < cut, z3.Not(f_is_nan(vb)),
+                              qforall([a], z3.Implies(in_win, beats), patterns=[has_a])))))
+
+
+R.spec(PAT, "PatientPruner.prune", props=["C16", "C13"], types={"study": "Study", "trial": "FrozenTrial"}, returns_kind="bool",
+       requires=["self._patience >= 0", "self._min_delta >= 0.0"],
+       cases=[case("nothing-reported", when="len(trial.intermediate_values) == 0", returns="False"),
+              case("inside-the-patience-window", when="len(trial.intermediate_values) <= self._patience + 1", returns="False"),
+              case("ok", ensures=[
+                  "implies(result, patience_exceeded(trial, self._patience, self._min_delta, study._directions[0]))",
+                  "implies(result and self._wrapped_pruner is not None, wrapped_decision(self._wrapped_pruner, study, trial))"])],
+       modifies=[])
